@@ -113,11 +113,7 @@ Definition ka_at (j R : Z) (r : tcp_repr) : Prop :=
   l_len (r_payload r) = 1 /\ r_control r = CNone /\
   exists u, 0 <= u <= R /\ r_seq_number r = sq (j + u).
 
-Definition pkt_wf (r : tcp_repr) : Prop :=
-  0 <= r_seq_number r < 2 ^ 32 /\ 0 <= l_len (r_payload r) <= 65535 /\
-  match r_ack_number r with Some a => 0 <= a < 2 ^ 32 | None => True end /\
-  0 <= r_window_len r <= 65535 /\
-  match r_window_scale r with Some v => 0 <= v | None => True end.
+Definition pkt_wf (r : tcp_repr) : Prop := 0 <= l_len (r_payload r) <= 65535.
 
 Definition pkt_good (S : Z -> Z) (F : option Z) (J : option Z) (L R : Z) (p : packet) : Prop :=
   let r := snd p in
@@ -141,13 +137,14 @@ Proof.
   destruct (Hc Hcar) as (j0 & HJ & _). discriminate.
 Qed.
 
-Lemma repr_ok_parse r : pkt_wf r -> repr_ok (wire_parse r).
+Lemma repr_ok_parse r : repr_ok (wire_parse r).
 Proof.
-  intros (H1 & H2 & H3 & H4 & H5). unfold repr_ok, wire_parse.
-  cbn [r_seq_number r_ack_number r_window_len r_window_scale].
-  split; [exact H1|]. split; [exact H3|]. split; [exact H4|].
+  unfold repr_ok, wire_parse. cbn [r_seq_number r_ack_number r_window_len r_window_scale].
+  split; [apply seq_norm_range|].
+  split; [destruct (r_ack_number r); [apply seq_norm_range | exact I]|].
+  split; [lia|].
   unfold wire_clamp_wscale. destruct (r_window_scale r) as [v|]; [|exact I].
-  destruct (Z.gtb_spec v 14); lia.
+  destruct (Z.gtb_spec (v mod 256) 14); lia.
 Qed.
 
 (* ---------------------------------------------------------------------------------------- *)
@@ -292,9 +289,13 @@ Definition INV (Sa : Z -> Z) (Fa : option Z) (Sb : Z -> Z) (Fb : option Z) (isn 
 (* a consistent in-flight segment is admissible for C04's receiver                           *)
 (* ---------------------------------------------------------------------------------------- *)
 Lemma wire_parse_fields r :
-  r_payload (wire_parse r) = r_payload r /\ r_seq_number (wire_parse r) = r_seq_number r /\
-  r_control (wire_parse r) = r_control r /\ r_ack_number (wire_parse r) = r_ack_number r.
+  r_payload (wire_parse r) = r_payload r /\ r_seq_number (wire_parse r) = seq_norm (r_seq_number r) /\
+  r_control (wire_parse r) = r_control r /\
+  r_ack_number (wire_parse r) = match r_ack_number r with Some a => Some (seq_norm a) | None => None end.
 Proof. unfold wire_parse. cbn. repeat split; reflexivity. Qed.
+
+Lemma seq_norm_sq x : seq_norm (sq x) = sq x.
+Proof. unfold sq, seq_norm, seq_modulus. apply Z.mod_mod. lia. Qed.
 
 (* the stream offset the receiver computes for a segment = the offset the sender meant *)
 Lemma seg_q_exact c s r j q :
@@ -312,6 +313,13 @@ Proof.
   intros (_ & C2 & _) f Hf. specialize (C2 f Hf). pose proof (TcpRecvBase.l_len_nonneg (ep_written e)). lia.
 Qed.
 
+Lemma seg_q_parse c s r x :
+  r_seq_number r = sq x -> seg_q c s (wire_parse r) = seg_q c s r.
+Proof.
+  intros H. unfold seg_q, seg_d. destruct (wire_parse_fields r) as (_ & P2 & _).
+  rewrite P2, H, seq_norm_sq. reflexivity.
+Qed.
+
 Lemma seg_ok_of_good S F have irs c s J L R p ex :
   rx_synced S F have irs c s ->
   compat S F ex -> L = l_len (ep_written ex) ->
@@ -323,15 +331,12 @@ Lemma seg_ok_of_good S F have irs c s J L R p ex :
      - 2147483648 <= k - wsq c s < 2147483648) ->
   seg_ok S F c s (wire_parse (snd p)).
 Proof.
-  intros Hsy (C1 & C2 & C3) HL ((W1 & W2 & _) & Hgood) Hanchor HR HRL Hage.
+  intros Hsy (C1 & C2 & C3) HL (W2 & Hgood) Hanchor HR HRL Hage.
   pose proof (synced_window_start _ _ _ _ _ _ Hsy) as Hws.
   destruct (wire_parse_fields (snd p)) as (P1 & P2 & P3 & _).
-  unfold seg_ok. rewrite P1, P2, P3. cbv zeta.
-  split; [lia|]. split; [change 4294967296 with (2 ^ 32); exact W1|].
+  unfold seg_ok. rewrite P1, P3. cbv zeta. unfold pkt_wf in W2.
+  split; [lia|]. split; [rewrite P2; apply seq_norm_range|].
   intros Hnear.
-  assert (Hq : seg_q c s (wire_parse (snd p)) = seg_q c s (snd p)).
-  { unfold seg_q, seg_d. rewrite P2. reflexivity. }
-  rewrite Hq. clear Hq.
   destruct (Z.ltb_spec 0 (l_len (r_payload (snd p)))) as [Hn|Hn].
   2:{ (* no payload *)
       destruct (control_eqb (r_control (snd p)) CFin) eqn:Ec.
@@ -340,8 +345,8 @@ Proof.
         destruct (Hgood (or_intror Hfin)) as (j & HJ & [Hd | Hk]).
         + destruct Hd as (k & Hk0 & Hseq & Hbytes & HkL & Hf).
           assert (Hirs : irs = j) by (apply Hanchor; exact HJ). subst irs.
-          assert (Hqk : seg_q c s (snd p) = k).
-          { apply (seg_q_exact c s (snd p) j k Hws Hseq).
+          assert (Hqk : seg_q c s (wire_parse (snd p)) = k).
+          { rewrite (seg_q_parse c s (snd p) _ Hseq). apply (seg_q_exact c s (snd p) j k Hws Hseq).
             apply Hage; [lia|]. rewrite Hws, Hseq, sq_norm, seq_add_norm_l. f_equal. lia. }
           rewrite Hqk. split; [intros i Hi; lia|]. split; [lia|]. intros _. apply Hf. exact Hfin.
         + destruct Hk as (_ & Hc & _). congruence.
@@ -349,15 +354,15 @@ Proof.
   destruct (Hgood (or_introl Hn)) as (j & HJ & [Hd | Hk]).
   - destruct Hd as (k & Hk0 & Hseq & Hbytes & HkL & Hf).
     assert (Hirs : irs = j) by (apply Hanchor; exact HJ). subst irs.
-    assert (Hqk : seg_q c s (snd p) = k).
-    { apply (seg_q_exact c s (snd p) j k Hws Hseq).
+    assert (Hqk : seg_q c s (wire_parse (snd p)) = k).
+    { rewrite (seg_q_parse c s (snd p) _ Hseq). apply (seg_q_exact c s (snd p) j k Hws Hseq).
       apply Hage; [lia|]. rewrite Hws, Hseq, sq_norm, seq_add_norm_l. f_equal. lia. }
     rewrite Hqk. split; [intros i Hi _; apply Hbytes; exact Hi|].
     split; [|exact Hf]. intros _ _ f HF. specialize (C2 f HF). lia.
   - destruct Hk as (Hn1 & Hc & u & Hu & Hseq).
     assert (Hirs : irs = j) by (apply Hanchor; exact HJ). subst irs.
-    assert (Hqk : seg_q c s (snd p) = u - 1).
-    { apply (seg_q_exact c s (snd p) j (u - 1) Hws).
+    assert (Hqk : seg_q c s (wire_parse (snd p)) = u - 1).
+    { rewrite (seg_q_parse c s (snd p) _ Hseq). apply (seg_q_exact c s (snd p) j (u - 1) Hws).
       - rewrite Hseq. f_equal. lia.
       - apply Hage; [lia|]. rewrite Hws, Hseq, sq_norm, seq_add_norm_l. f_equal. lia. }
     rewrite Hqk. split; [intros i Hi Hge; lia|]. split; [lia|]. intros E; congruence.
@@ -377,24 +382,22 @@ Lemma have_of_good S F have irs c s J L R p ex k :
   seg_q c s (wire_parse (snd p)) <= k < seg_q c s (wire_parse (snd p)) + l_len (r_payload (wire_parse (snd p))) ->
   J <> None /\ 0 <= k < L.
 Proof.
-  intros Hsy (C1 & C2 & C3) HL ((W1 & W2 & _) & Hgood) Hanchor HR HRL Hage Hk1 Hk2.
+  intros Hsy (C1 & C2 & C3) HL (W2 & Hgood) Hanchor HR HRL Hage Hk1 Hk2.
   pose proof (synced_window_start _ _ _ _ _ _ Hsy) as Hws.
   destruct (wire_parse_fields (snd p)) as (P1 & P2 & P3 & _).
-  assert (Hq : seg_q c s (wire_parse (snd p)) = seg_q c s (snd p)).
-  { unfold seg_q, seg_d. rewrite P2. reflexivity. }
-  rewrite Hq, P1 in Hk2. clear Hq.
+  rewrite P1 in Hk2.
   assert (Hn : 0 < l_len (r_payload (snd p))) by lia.
   destruct (Hgood (or_introl Hn)) as (j & HJ & [Hd | Hka]).
   - destruct Hd as (k0 & Hk0 & Hseq & Hbytes & HkL & Hf).
     assert (Hirs : irs = j) by (apply Hanchor; exact HJ). subst irs.
-    assert (Hqk : seg_q c s (snd p) = k0).
-    { apply (seg_q_exact c s (snd p) j k0 Hws Hseq).
+    assert (Hqk : seg_q c s (wire_parse (snd p)) = k0).
+    { rewrite (seg_q_parse c s (snd p) _ Hseq). apply (seg_q_exact c s (snd p) j k0 Hws Hseq).
       apply Hage; [lia|]. rewrite Hws, Hseq, sq_norm, seq_add_norm_l. f_equal. lia. }
     rewrite Hqk in Hk2. split; [congruence | lia].
   - destruct Hka as (Hn1 & Hc & u & Hu & Hseq).
     assert (Hirs : irs = j) by (apply Hanchor; exact HJ). subst irs.
-    assert (Hqk : seg_q c s (snd p) = u - 1).
-    { apply (seg_q_exact c s (snd p) j (u - 1) Hws).
+    assert (Hqk : seg_q c s (wire_parse (snd p)) = u - 1).
+    { rewrite (seg_q_parse c s (snd p) _ Hseq). apply (seg_q_exact c s (snd p) j (u - 1) Hws).
       - rewrite Hseq. f_equal. lia.
       - apply Hage; [lia|]. rewrite Hws, Hseq, sq_norm, seq_add_norm_l. f_equal. lia. }
     rewrite Hqk in Hk2. lia.
@@ -484,9 +487,9 @@ Proof.
       * unfold log_written. destruct ev; try reflexivity. destruct (Hsend data eq_refl) as (e & ->). reflexivity.
       * unfold log_closed. destruct ev; try reflexivity. rewrite Dc. reflexivity.
       * eapply same_closed_syn; eassumption.
-  - destruct Hn as [(Hc' & _) | (Hb & Hev)].
+  - destruct Hn as [(Hc' & _) | Hevn].
     + right. split; assumption.
-    + destruct ev; try contradiction.
+    + destruct ev; try contradiction. destruct Hevn as (Hb & Hev).
       destruct Htxl as [(T1 & T2) | (Dc & _)].
       * left. destruct Hb as (B1 & B2 & _). destruct Hb' as (B1' & B2' & _).
         unfold log_written, log_closed. rewrite B1', B2', <- T1, <- T2, B1, B2. split; reflexivity.
@@ -515,9 +518,10 @@ Proof.
       * split; [intros _; rewrite Hiss; apply Hd; congruence|].
         intros E. exfalso. apply (Hmono ltac:(congruence)). exact E.
     + split; [intros; congruence|]. intros _.
-      destruct Hn as [(Hc' & _) | ((_ & _ & Hp) & Hev)]; [exact Hc'|].
-      exfalso. pose proof (Hc Hp) as Hcl. destruct (HC Hcl) as (Hc' & _).
-      destruct ev; try contradiction. destruct Hev as [E|E]; congruence.
+      destruct Hn as [(Hc' & _) | Hevn]; [exact Hc'|].
+      exfalso. destruct ev; try contradiction. destruct Hevn as ((_ & _ & Hp) & Hev).
+      pose proof (Hc Hp) as Hcl. destruct (HC Hcl) as (Hc' & _).
+      destruct Hev as [E|E]; congruence.
   - destruct (phase_syn gt') eqn:Ep.
     + apply phase_syn_true. exact Ep.
     + apply phase_syn_false in Ep. split; [apply sq_range'|]. split; [reflexivity|]. intros; congruence.
@@ -713,10 +717,9 @@ Lemma pkt_good_new S F ex' gt' J' R p :
   compat S F ex' -> g_una gt' <= R + 1 ->
   pkt_good S F J' (l_len (ep_written ex')) R p.
 Proof.
-  intros Hi (W1 & W2 & W3 & W4 & W5 & Hsyn & Hrst & Hcar) Htxl Hjl (C1 & C2 & C3) Huna.
+  intros Hi (W2 & Hsyn & Hrst & Hcar) Htxl Hjl (C1 & C2 & C3) Huna.
   split.
-  - unfold pkt_wf. pose proof (TcpRecvBase.l_len_nonneg (r_payload (snd p))).
-    split; [exact W1|]. split; [lia|]. split; [exact W3|]. split; [exact W4 | exact W5].
+  - unfold pkt_wf. pose proof (TcpRecvBase.l_len_nonneg (r_payload (snd p))). lia.
   - intros Hc. destruct (Hcar Hc) as (Hp & Hkind).
     unfold jl in Hjl. destruct J' as [j|]; [|congruence].
     destruct Hjl as (Hj & Hiss & _). specialize (Hiss Hp).
@@ -756,7 +759,10 @@ Proof.
   destruct (Hadv Hlt) as (ip & r & Hev' & Hacc & Hnrst & Hack).
   rewrite Hev in Hev'. inversion Hev'; subst ip r; clear Hev'.
   destruct (wire_parse_fields (snd p)) as (_ & _ & P3 & P4). rewrite P3 in Hnrst. rewrite P4 in Hack.
-  destruct (Huu Hnrst _ Hack) as (irs & c & HK & Ha & Hc).
+  destruct (r_ack_number (snd p)) as [a0|] eqn:Ea0; [|discriminate].
+  destruct (Huu Hnrst a0 eq_refl) as (irs & c & HK & Haa & Hc).
+  assert (Ha : sq (g_iss gt + g_una gt') = sq (irs + 1 + c)).
+  { inversion Hack as [Hack']. rewrite Haa, seq_norm_sq. reflexivity. }
   pose proof (HKr _ HK) as Hirs_r.
   pose proof (accepts_not_closed' _ _ _ Hacc) as Hncl.
   exists irs. split; [exact HK|].
@@ -780,8 +786,8 @@ Proof.
     + (* PData *)
       assert (Huna : g_una gt = 1 + g_acked gt) by (unfold g_una; rewrite Ep; reflexivity).
       assert (Hagec : - 2147483648 <= c - g_acked gt < 2147483648).
-      { rewrite <- Huo. apply (Hage _ c Hack); [lia|].
-        rewrite Hlsn, Huo, Huna, Ha, <- Hd, sq_idem_add3, sq_norm, seq_add_norm_l. f_equal. lia. }
+      { rewrite <- Huo. apply (Hage a0 c eq_refl); [lia|].
+        rewrite Hlsn, Huo, Huna, Haa, <- Hd, sq_idem_add3, sq_norm, seq_add_norm_l. f_equal. lia. }
       assert (Hub : g_una gt' <= 2 + l_len (g_stream gt')).
       { unfold g_una. destruct (g_phase gt'); lia. }
       rewrite Hstr in Hub.
@@ -962,18 +968,17 @@ Section XStep.
     { destruct ev; try exact I.
       - apply (Hrecv n eq_refl).
       - destruct (Hseg ip r eq_refl) as (p & Hin & -> & -> & Hage).
-        pose proof (Hpd2 p Hin) as ((W1 & _) & _).
         destruct (wire_parse_fields (snd p)) as (_ & P2 & _).
-        split; [rewrite P2; exact W1|].
+        split; [rewrite P2; apply seq_norm_range|].
         destruct (g_irs gr) as [irs|] eqn:Ei; [|exact I].
         destruct (deliver_facts Sin Fin ex gx ey gy p irs HEPx HDyx Hin Hage Ei) as (Hgood & Hanc' & HR & HRL' & Hage').
         unfold ginv in Hg. fold gr in Ei. rewrite Ei in Hg. destruct Hg as (Hsy & _).
         eapply (seg_ok_of_good Sin Fin _ irs _ s _ _ _ p ey Hsy Hcin eq_refl Hgood Hanc' HR HRL' Hage'). }
     assert (Hevtx : match ev with EvSegment ip r => repr_ok r | _ => True end).
     { destruct ev; try exact I. destruct (Hseg ip r eq_refl) as (p & Hin & _ & -> & _).
-      apply repr_ok_parse. apply (Hpd2 p Hin). }
+      apply repr_ok_parse. }
     (* C05 and C04 *)
-    destruct (c05 cx gt s ev s' out tags Hinv Hcx Hevtx (rb_wf_conv _ Hwf) Hsh Hstep) as (gt' & Hinv' & Hrel & Hpk).
+    destruct (c05 cx gt s ev s' out tags Hinv Hcx Hevtx Hstep) as (gt' & Hinv' & Hrel & Hpk).
     pose proof (step_inv Sx Fx (Fx_nonneg Fin HFnn) cx gr s ev s' out tags Hg Hevrx Hstep) as (Hg' & Hack & _).
     fold gr' in Hg', Hack.
     exists gt'. cbv zeta.
@@ -1021,7 +1026,7 @@ Section XStep.
       assert (Hms : tcp_may_send s = true).
       { unfold tcp_send_slice in Es. destruct (tcp_may_send s); [reflexivity | discriminate]. }
       destruct Htxl as [(T1 & T2) | (Dc & _)].
-      - destruct Hrel as [(_ & Hst' & _ & Hfr & _) | (_ & [(Hc' & _) | (_ & Hf)])].
+      - destruct Hrel as [(_ & Hst' & _ & Hfr & _) | (_ & [(Hc' & _) | Hf])].
         + fold gt in T2. rewrite Hcl in T2. specialize (Hfr T2). rewrite Hst' in Hfr. unfold log_written in Hfr.
           rewrite <- (app_nil_r (g_stream gt)) in Hfr at 2. apply app_inv_head in Hfr. rewrite Hfr. apply app_nil_r.
         + exfalso. unfold tcp_may_send in Hms. rewrite <- Hst, Hc' in Hms. discriminate.
